@@ -420,7 +420,9 @@ impl<'a> Minimiser<'a> {
             if best.param("min_ops") != Some("0") {
                 best = self.min_ops(best);
             }
-            best = self.min_gaps(best);
+            if best.param("min_gaps") != Some("0") {
+                best = self.min_gaps(best);
+            }
             if best.param("min_cfg") != Some("0") {
                 best = self.min_cfg(best);
             }
